@@ -1769,7 +1769,7 @@ func IsSelectAllAggregate(query *Query) bool {
 
 func ExecSelect(query *Query, current []any) ([]any, error) {
 	copy := make([]any, 0)
-	if IsSelectAllAggregate(query) {
+	if IsSelectAllAggregate(query) && len(query.groupDefinition) == 0 {
 		rs, err := SelectExpr(query, nil, &query.selectDefinition)
 		if err != nil {
 			return nil, err
